@@ -112,7 +112,7 @@ DispatchAbs(acc) == IF acc = <<>> THEN Reject ELSE Accept(acc[1].u)
 (* before d, h, m (None = chunk absent), the spelling and zero padding.    *)
 (***************************************************************************)
 None == 1000000
-RelNums == {None, 0, 1, 7, 45}
+RelNums == {None, 0, 1, 8, 45}   \* 8: a zero-padded "08" is not an octal number
 RelSpecs == [d : RelNums, h : RelNums, m : RelNums, colon : BOOLEAN, pad : BOOLEAN]
 WellFormed(r) == r.d # None \/ r.h # None \/ r.m # None
 
